@@ -130,7 +130,7 @@ type Env struct {
 	Files   *protoregistry.Files // for the local service
 }
 
-var svcOf = map[string]string{"b1": "A", "b2": "A", "b4": "A", "b3": "B", "b3x": "B", "bc": "C", "local": "A", "bd": "D"}
+var svcOf = map[string]string{"b1": "A", "b2": "A", "b4": "A", "b3": "B", "b3x": "B", "bc": "C", "local": "A", "bd": "D", "bd2": "D"}
 
 // tagOf is the tag the provider's replies carry: b3x is another connection
 // to the server behind b3.
@@ -221,6 +221,8 @@ type Worker struct {
 	// history switches (shared back-ends cannot change under other workers)
 	bd  *be.Backend
 	fdD [4]protoreflect.FileDescriptor
+	// bd2 is a replica of bd that always serves revision 1
+	bd2 *be.Backend
 }
 
 // ServeHTTP forwards to the current Mux. A panic is recorded for the history
@@ -269,12 +271,19 @@ func NewWorker(e *Env) (*Worker, error) {
 		w.Close()
 		return nil, err
 	}
+	if w.bd2, err = be.Start("bd2", true, be.Svc{SD: w.fdD[1].Services().Get(0), Impl: tagged{"bd2"}}, be.Svc{SD: w.fdD[1].Services().Get(1), Impl: tagged{"bd2"}}); err != nil {
+		w.Close()
+		return nil, err
+	}
 	return w, nil
 }
 
 func (w *Worker) Close() {
 	if w.bd != nil {
 		w.bd.Close()
+	}
+	if w.bd2 != nil {
+		w.bd2.Close()
 	}
 	w.cc.Close()
 	w.hc.CloseIdleConnections()
